@@ -80,7 +80,7 @@ func (m recMemo) get(img *simfs.FS, base *explore.Base, o explore.RecoverOpts) (
 func runC03(c *explore.Ctx) {
 	var spaces []crashSpace
 	if c.Thorough() {
-		spaces = []crashSpace{{"E", "ROLL", 6}, {"E", "ROLL1", 5}, {"E", "BIGC", 5}, {"S2", "ROLL", 5}, {"S2", "ROLL1", 5}, {"CH", "ROLL", 4}, {"T", "BIGC", 5}, {"T3", "BIGC", 5}, {"S3", "ROLL", 4}, {"S4", "ROLL", 4}, {"SM", "ROLLM", 5}, {"RU", "ROLL", 5}, {"T!hdr3", "BIGC", 4}, {"S2!unclean", "ROLL", 4}, {"LG15", "ROLL1", 4}}
+		spaces = []crashSpace{{"E", "ROLL", 7}, {"E", "ROLL1", 6}, {"E", "BIGC", 6}, {"S2", "ROLL", 6}, {"S2", "ROLL1", 6}, {"CH", "ROLL", 5}, {"T", "BIGC", 6}, {"T3", "BIGC", 6}, {"S3", "ROLL", 5}, {"S4", "ROLL", 5}, {"SM", "ROLLM", 6}, {"RU", "ROLL", 6}, {"T!hdr3", "BIGC", 5}, {"S2!unclean", "ROLL", 5}, {"LG15", "ROLL1", 5}}
 	} else {
 		spaces = []crashSpace{{"E", "ROLL", 3}, {"E", "ROLL1", 3}, {"S2", "ROLL", 3}, {"S2", "ROLL1", 3}, {"CH", "ROLL", 2}, {"T", "BIGC", 3}, {"T3", "BIGC", 2}, {"SM", "ROLLM", 3}, {"RU", "ROLL", 3},
 			// the session starts with a recovery: 3 bytes of a torn size header at the end of the newest segment
